@@ -43,6 +43,24 @@ func RandIsInput() {
 	}
 }
 
+// Fair makes the default answer of Intn rotate (0,1,2,... modulo n) instead of always being 0, so that
+// code which retries with a fresh random pick eventually tries every candidate on the default path.
+func Fair() {
+	if e := sched.E; e != nil {
+		e.Data["randFair"] = new(int)
+	}
+}
+
+func fairOffset(n int) int {
+	if e := sched.E; e != nil {
+		if p, ok := e.Data["randFair"].(*int); ok {
+			*p++
+			return (*p - 1) % n
+		}
+	}
+	return 0
+}
+
 // IntRange bounds what Int() may return (it is used modulo small numbers).
 var IntRange = 1
 
@@ -59,7 +77,7 @@ func Intn(n int) int {
 	if n <= 0 {
 		panic("invalid argument to Intn")
 	}
-	return sched.Choose(cls(), n, "rand.Intn")
+	return (sched.Choose(cls(), n, "rand.Intn") + fairOffset(n)) % n
 }
 
 func Int() int {
